@@ -139,7 +139,7 @@ class Render:
         for b in body or ():
             if b[0] == "cfg":
                 out.add(b[1])
-            elif b[0] in ("call", "lcall"):
+            elif b[0] in ("call", "lcall", "fullop"):
                 return None
             elif b[0] in ("for", "forc", "forc2", "while"):
                 t = self._touched(b[2])
@@ -177,7 +177,7 @@ class Render:
             self._forget(self._touched(s[2]))
             self._forget(self._touched(s[3]))
             return
-        if k in ("call", "lcall"):
+        if k in ("call", "lcall", "fullop"):
             self.last_state = {}
         self._stmt(s, ind)
 
@@ -317,6 +317,9 @@ class Render:
             self.emit('"llvm.call"() <{callee = @lext, fastmathFlags = #llvm.fastmath<none>, CConv = #llvm.cconv<ccc>, '
                       'op_bundle_sizes = array<i32>, operandSegmentSizes = array<i32: 0, 0>, '
                       'TailCallKind = #llvm.tailcallkind<none>}> : () -> ()', ind)
+        elif k == "fullop":
+            # an op that is no call but is marked as reprogramming the accelerators (inline assembly, a runtime helper)
+            self.emit('"test.op"() {accfg.effects = #accfg.effects<full>} : () -> ()', ind)
         elif k == "callnone":
             self.emit("func.call @ext() {accfg.effects = #accfg.effects<none>} : () -> ()", ind)
         elif k == "def":
@@ -555,6 +558,23 @@ def program_set(tier, seed, want_calls=True):
                     add((("cfg", "acc1", pt), ("for", "args", body)))
                     if not quick:
                         add((("cfg", "acc1", pw), ("for", "c01", body)))
+    # an op that is no call but carries the mark "reprograms the accelerators", wherever a call can stand
+    if want_calls:
+        for p0 in range(2):
+            for p2 in range(2):
+                add((("cfg", "acc1", p0), ("fullop",), ("cfg", "acc1", p2)))
+                add((("cfg", "acc1", p0), ("for", "args", (("fullop",),)), ("cfg", "acc1", p2)))
+                add((("cfg", "acc1", p0), ("if", 0, (("fullop",),), None), ("cfg", "acc1", p2)))
+                add((("cfg", "acc1", p0), ("for", "k13", (("fullop",), ("cfg", "acc1", p0))), ("cfg", "acc1", p2)))
+    # two accelerators configured in both branches of one conditional; behind it the second one runs the job both
+    # branches ended in and then another one
+    for pa in range(2):
+        for q in range(3):
+            for q2 in range(3):
+                if q != q2:
+                    br = lambda pa_: (("cfg", "acc1", pa_), ("cfg", "acc2", q))
+                    add((("if", 0, br(pa), br(1 - pa)), ("cfg", "acc2", q), ("cfg", "acc2", q2)))
+                    add((("cfg", "acc2", q2), ("if", 1, br(pa), br(pa)), ("cfg", "acc2", q), ("cfg", "acc2", q2), ("cfg", "acc1", pa)))
     # region ops the state tracing has no special case for (scf.while): what happens inside has to be forgotten behind it
     for bk in ("args", "k13", "k42"):
         for p0 in range(3):
@@ -717,6 +737,15 @@ def machine_handlers(M: Machine):
     def h_accel(I, op):
         return None
 
+    def h_marked(I, op):
+        # an arbitrary op: reprograms the accelerators iff it is marked so
+        from snaxc.dialects import accfg
+
+        a = op.attributes.get("accfg.effects")
+        if isinstance(a, accfg.EffectsAttr) and a.data != accfg.EffectsEnum.NONE:
+            M.clobber()
+            I.emit("call", "marked_op", True)
+
     def h_for_iter(I, op, k):
         if M.on_state:
             for a in op.body.blocks[0].args[1:]:
@@ -737,7 +766,7 @@ def machine_handlers(M: Machine):
 
     return {
         "accfg.setup": h_setup, "accfg.launch": h_launch, "accfg.await": h_await, "func.call": h_call,
-        "llvm.call": h_call,
+        "llvm.call": h_call, "test.op": h_marked,
         "accfg.accelerator": h_accel, "@for_iter": h_for_iter, "@for_exit": h_for_exit, "@if_exit": h_if_exit,
     }
 
